@@ -145,27 +145,34 @@ Proof.
   destruct (cc_preserve c); cbn [repeat app expect]; reflexivity.
 Qed.
 
-Lemma walk_node : forall n prefix k rest rs,
+Lemma not_sentinel prefix k u d : (prefix <> [] \/ beq k sentinel = false) -> is_sentinel (PF (prefix ++ [k]) u d) = false.
+Proof.
+  intros [H|H]; unfold is_sentinel; cbn [pf_name].
+  - destruct prefix as [|x p']; [congruence|]. destruct p'; reflexivity.
+  - destruct prefix as [|x p']; [exact H|]. destruct p'; reflexivity.
+Qed.
+
+Lemma walk_node : forall n prefix k u rest rs,
   wf_names n ->
   lookup (cc_fs c) (cc_cwd c ++ prefix ++ [k]) = Some n ->
-  prefix <> [] ->
-  client_files c None (PF (prefix ++ [k]) false (is_dir_node n) :: rexpand (prefix ++ [k]) n ++ rest)
+  (prefix <> [] \/ beq k sentinel = false) ->
+  client_files c None (PF (prefix ++ [k]) u (is_dir_node n) :: rexpand (prefix ++ [k]) n ++ rest)
                (repeat Ack (n_acks (cc_preserve c) n) ++ rs) =
   encode (cc_preserve c) k n ++ client_files c None rest rs.
 Proof.
-  induction n as [m t d|m t ents IHn] using node_ind2; intros prefix k rest rs Hwf Hl Hne.
+  induction n as [m t d|m t ents IHn] using node_ind2; intros prefix k u rest rs Hwf Hl Hne.
   - (* file *)
     cbn [rexpand app n_acks].
     replace ((if cc_preserve c then 1 else 0) + 2)%nat with ((if cc_preserve c then 1 else 0) + (1 + 1))%nat by lia.
     rewrite repeat_app, <- app_assoc.
-    rewrite (client_entry (PF (prefix ++ [k]) false (is_dir_node (File m t d))) rest (File m t d) (repeat Ack (1 + 1) ++ rs) k);
-      [|destruct prefix as [|x p']; [congruence|]; destruct p'; reflexivity|exact Hl|apply sent_name_plain].
+    rewrite (client_entry (PF (prefix ++ [k]) u (is_dir_node (File m t d))) rest (File m t d) (repeat Ack (1 + 1) ++ rs) k);
+      [|apply not_sentinel; exact Hne|exact Hl|apply sent_name_plain].
     cbn [repeat app expect encode Nat.add]. rewrite send_data_id. rewrite <- !app_assoc. reflexivity.
   - (* directory *)
     rewrite rexpand_dir, n_acks_dir, encode_dir.
     rewrite repeat_app, <- !app_assoc.
-    rewrite (client_entry (PF (prefix ++ [k]) false (is_dir_node (Dir m t ents))) _ (Dir m t ents) _ k);
-      [|destruct prefix as [|x p']; [congruence|]; destruct p'; reflexivity|exact Hl|apply sent_name_plain].
+    rewrite (client_entry (PF (prefix ++ [k]) u (is_dir_node (Dir m t ents))) _ (Dir m t ents) _ k);
+      [|apply not_sentinel; exact Hne|exact Hl|apply sent_name_plain].
     replace (1 + n_acks_list (cc_preserve c) ents + 1)%nat with (1 + (n_acks_list (cc_preserve c) ents + 1))%nat by lia.
     rewrite (repeat_app Ack 1). cbn [repeat app expect]. rewrite <- ?app_assoc. f_equal. f_equal.
     destruct (proj1 (wf_names_dir _ _ _) Hwf) as [Hdist Hwfl].
@@ -183,13 +190,15 @@ Proof.
         cbn [wf_names_list] in Hw. destruct Hw as [Hw1 Hw2].
         assert (Hin : In (k2, v2) ents) by (rewrite Hsplit; apply in_or_app; right; left; reflexivity).
         rewrite Forall_forall in IHn.
-        pose proof (IHn (k2, v2) Hin (prefix ++ [k]) k2) as IHv. cbn [snd] in IHv.
+        pose proof (IHn (k2, v2) Hin (prefix ++ [k]) k2 false) as IHv. cbn [snd] in IHv.
+        rewrite <- !app_assoc in IHv.
         rewrite IHv.
         + f_equal. apply (IHl (done ++ [(k2, v2)])); [rewrite <- app_assoc; exact Hsplit|exact Hw2].
         + exact Hw1.
-        + rewrite app_assoc, lookup_app. rewrite <- app_assoc, Hl. cbn [lookup].
+        + replace (cc_cwd c ++ prefix ++ [k] ++ [k2]) with ((cc_cwd c ++ prefix ++ [k]) ++ [k2]) by (now rewrite <- !app_assoc).
+          rewrite lookup_app, Hl. cbn [lookup].
           rewrite (assoc_in_distinct _ _ _ Hdist Hin). reflexivity.
-        + destruct prefix; discriminate. }
+        + left. destruct prefix; discriminate. }
     apply (Hents ents []); auto.
 Qed.
 
